@@ -5,7 +5,7 @@ import vlib
 from vlib import CheckError
 
 STAT_NAMES = ["initiations_answered", "initiations_refused", "responses_accepted", "responses_refused",
-              "data_accepted", "data_refused", "device_initiations", "ref_verdict_ok", "ref_verdict_failed", "restarts", "cookie_replies", "key_changes"]
+              "data_accepted", "data_refused", "device_initiations", "ref_verdict_ok", "ref_verdict_failed", "restarts", "cookie_replies", "key_changes", "cookie_ageings"]
 
 
 class Prop:
@@ -14,7 +14,9 @@ class Prop:
     vo_props = ["theories/Props/C03.vo"]
     k_names = ["handshake(device co-simulated against ref == Noise.Model.dev_step against Noise.Paper parties)",
                "wire(device-emitted initiation/response bytes decode with Wire.Codec to the fields ref parsed)"]
-    rule = ("handshake scenarios from one PRNG, 19 templates (the last three: private-key rotation with configured peers followed "
+    rule = ("handshake scenarios from one PRNG, 21 templates (UAPI update_only for an unknown key, then restart and an initiation "
+            "by that key; cookie expiry: authentic cookie reply, 50 s / 121 s pass via "
+            "VerifShiftPeerCookie, then initiations and responses; the last three: private-key rotation with configured peers followed "
             "by handshakes in both roles under the new identity and refused initiations for the old one; peers configured before any "
             "private key; before those: the last five: device Down/Up between handshakes in both roles with "
             "non-zero / mismatching psk; unauthentic cookie replies -- garbage, wrong key, wrong or outdated MAC1 as associated "
@@ -46,7 +48,7 @@ class Prop:
         return meta, files
 
     def generate(self, seed, tier, mult):
-        n = (76 if tier == "quick" else 950) * mult
+        n = (84 if tier == "quick" else 966) * mult
         shards = 8 if tier == "quick" else 32
         exe = vlib.build_go("c03")
         rc, o = vlib.sh([exe, "-seed", str(seed), "-n", str(n), "-shards", str(shards), "-out", self.dir,
@@ -79,9 +81,44 @@ class Prop:
             f["party"] = "%s/%s" % (pk.get("kind"), pk.get("psk"))
             f["flags"] = "+".join(x for x in (stp.get("resp_key") and "resp_" + stp["resp_key"], stp.get("mac_key") and "mac_" + stp["mac_key"],
                                               stp.get("ts"), stp.get("which"), stp.get("kind")) if x)
+            f["clause"] = Prop._clause(f["kind"], f["what"], stp.get("op"), o)
             f["event"] = o.get("event")
             f["observed"] = {"outs": o.get("outs"), "ref": o.get("ref"), "peers": o.get("peers")}
         return f
+
+    @staticmethod
+    def _clause(kind, what, op, o):
+        """Name the clause of the property the observation at the failing step contradicts (best effort)."""
+        if what == "wire-layout":
+            return "layout"
+        outs = o.get("outs") or []
+        for d in outs:
+            if d and d[0] in (1, 2):
+                size, mac1, mac2 = (d[2], d[4], d[5]) if d[0] == 1 else (d[2], d[5], d[6])
+                if size != (148 if d[0] == 1 else 92):
+                    return "size"
+                if mac1 != d[1]:
+                    return "mac1-not-under-addressee-key"
+                if mac2 != 1:
+                    return "mac2-not-zero-absent-cookie"
+                if d[0] == 1 and d[6] != d[1]:
+                    return "initiation-does-not-open-at-addressed-peer"
+            if d and d[0] == 0:
+                return "malformed-or-unopenable-datagram"
+            if d and d[0] == 4 and d[3] == 0:
+                return "transport-under-keys-nobody-holds"
+        has = lambda k: any(d and d[0] == k for d in outs)
+        if op == "rinit":
+            if has(2):
+                return "response-to-initiation"
+            return "no-response-to-initiation"
+        if op == "rresp":
+            return "response-accepted(initiator)" if has(4) else "response-refused(initiator)"
+        if op == "rdata":
+            return "data-accepted" if has(5) else "data-refused(mirrored-keys)"
+        if op in ("tun", "kick"):
+            return "device-sends" if (has(1) or has(4)) else "device-silent"
+        return op or "?"
 
     def _fails(self, outputs, shards, files, cases):
         res = []
@@ -129,7 +166,7 @@ class Prop:
             chunk //= 2
 
     def signature(self, case, f):
-        return "%s:%s:%s:%s" % (f.get("what", "property"), f.get("op"), f.get("party"), f.get("flags") or "-")
+        return "%s:%s:%s:%s:%s" % (f.get("what", "property"), f.get("clause") or "-", f.get("op"), f.get("party"), f.get("flags") or "-")
 
     def nontrivial(self, c):
         return (c["completed"] >= 1 and c["refused"] >= 1) or c["data_ok"] >= 2
@@ -150,7 +187,7 @@ def replay(path):
     case = obj.get("input") or obj
     fs = p.run_cases([case])
     got = p.last_rerun[0]
-    print(json.dumps({"failures": [{k: f[k] for k in ("kind", "pos", "what", "op", "party", "flags") if k in f} for f in fs],
+    print(json.dumps({"failures": [{k: f[k] for k in ("kind", "pos", "what", "clause", "op", "party", "flags") if k in f} for f in fs],
                       "observed": [{"event": o["event"], "outs": o["outs"], "ref": o["ref"], "peers": o["peers"]} for o in got["obs"]]}))
     if any(f["kind"] == 2 for f in fs):
         print("VIOLATION property=C03 replay=%s" % path)
